@@ -20,6 +20,7 @@ EXPLANATION = (
     'Also decided (round 8): A `with contextlib.suppress(X)` around user code counts as a handler that swallows X. '
     "Also decided (round 10): Replies are encoded by a per-message call of the library's module-level encoder (shared from C01): no encoder object with a buffer is kept on the process-wide serializer. "
     "Also decided (round 9): The stream failure path's bookkeeping cannot replace the generator's exception; the batch wrapper encodes its exception through class_to_dict. "
+    "Also decided (round 12): format_traceback formats the exception value only under its own catch-all; a remote exception is raised inside the client's releasing region (shared from C03). "
     "Not decided: equality of args/attributes after "
     "the trip (third-party codecs), all classes x argument shapes."
 )
@@ -314,6 +315,18 @@ def run(ctx, R, tier):
     except AnalysisError as _shared_x:
         # the other property's own anchors are gone on this tree: its check reports that; what it produced before is still shared
         R.note("obligations shared from C10 are incomplete on this tree: %s" % _shared_x)
+    # "the proxy remains usable for the next call": a remote exception that is itself a CommunicationError (SerializeError: the server closes after replying) must be
+    # raised INSIDE the client's guarded region, whose handler releases the connection (shared with C03-R2)
+    from . import c03 as _c03
+    R03_ = Rules("C03")
+    try:
+        _run_shared(ctx, _c03, R03_, tier)
+    except AnalysisError as _shared_x:
+        R.note("obligations shared from C03 are incomplete on this tree: %s" % _shared_x)
+    for o in R03_.obs:
+        if o.key == "C03-R2|_pyroInvoke|region":
+            R.add("C07-R4", "_pyroInvoke|remote-exception-raised-inside-the-releasing-region", o.desc + " (a remote SerializeError drops the client's half of the connection the server "
+                  "has closed, so the next call reconnects)", o.ok, o.loc, o.detail)
     for o in R10_.obs:
         if o.key in ("C10-R1|get_next_stream_item|removal-cannot-raise", "C10-R1|get_next_stream_item|handler-reraises"):
             R.add("C07-R6", "stream|" + o.key.split("|", 2)[2], o.desc + " (a KeyError from the bookkeeping would replace the generator's own exception / StopIteration at the caller)", o.ok, o.loc, o.detail)
